@@ -157,7 +157,7 @@ func c01R2(c *Ctx) {
 		if !c.complete(ex, rule, role, fn) {
 			continue
 		}
-		checkReplayBranch(c, rule, role, fn, ex, ".GetAuthorizeCodeSession", []string{"fosite.ErrInvalidatedAuthorizeCode"}, true)
+		checkReplayBranch(c, rule, role, fn, ex, ".GetAuthorizeCodeSession", []string{"fosite.ErrInvalidatedAuthorizeCode"}, false)
 	}
 }
 
